@@ -82,6 +82,9 @@ func vSwBucketStats(b *bbolt.Bucket) bbolt.BucketStats {
 	return bbolt.BucketStats{KeyN: n}
 }
 
+// vSwPath: file of the native database (for entries that close and reopen it).
+var vSwPath string
+
 // vRealSwapStore returns the real bboltStore (symbolic: over the map model).
 func vRealSwapStore() *bboltStore {
 	if zzverif.Symbolic() {
@@ -101,7 +104,8 @@ func vRealSwapStore() *bboltStore {
 	if err != nil {
 		panic(err)
 	}
-	db, err := bbolt.Open(filepath.Join(dir, "swaps.db"), 0o600, nil)
+	vSwPath = filepath.Join(dir, "swaps.db")
+	db, err := bbolt.Open(vSwPath, 0o600, nil)
 	if err != nil {
 		panic(err)
 	}
@@ -169,4 +173,54 @@ func H_C29_realStoreListsEveryRecord() {
 	svc := &SwapService{swapServices: &SwapServices{swapStore: st}}
 	has, herr := svc.HasActiveSwaps()
 	zzverif.Assert(herr == nil && has == active, "C29.has_active_swaps_over_the_real_store")
+}
+
+// vSwPutFails: the next Bucket.Put fails (read-only database, full disk, database closed at shutdown).
+var vSwPutFails bool
+
+func vSwBucketPutMayFail(b *bbolt.Bucket, key []byte, value []byte) error {
+	if vSwPutFails {
+		return bbolt.ErrDatabaseReadOnly
+	}
+	return vSwBucketPut(b, key, value)
+}
+
+// H_C15_realStoreReportsFailedWrites: SendEvent relies on UpdateData's error to stop before the next action
+// acts on something that is not on disk (C15: no duplicate broadcast/payment after a restart; C13: no pubkey
+// before the anchor is durable).  The real bboltStore reports a failed write of an existing and of a new
+// record, and leaves the stored record unchanged.
+// zzverif:also C13
+func H_C15_realStoreReportsFailedWrites() {
+	st := vRealSwapStore()
+	if zzverif.Symbolic() {
+		zzverif.Override("(*go.etcd.io/bbolt.Bucket).Put", vSwBucketPutMayFail)
+	}
+	existing := zzverif.Bool("record_exists")
+	if existing {
+		zzverif.Assert(st.UpdateData(vStoreSwap(0, State_SwapOutSender_AwaitAgreement)) == nil, "C15.store_first_write_ok")
+	}
+	next := vStoreSwap(0, State_SwapOutSender_AwaitTxConfirmation)
+	if zzverif.Symbolic() {
+		vSwPutFails = true
+	} else {
+		st.db.Close() // natively: the database was closed (shutdown): every write fails
+	}
+	err := st.UpdateData(next)
+	zzverif.Assert(err != nil, "C15.failed_store_write_is_reported")
+	zzverif.Assert(err != nil, "C13.failed_store_write_is_reported")
+	if zzverif.Symbolic() {
+		vSwPutFails = false
+	} else {
+		db, oerr := bbolt.Open(vSwPath, 0o600, nil)
+		if oerr != nil {
+			panic(oerr)
+		}
+		st = &bboltStore{db: db}
+	}
+	got, gerr := st.GetData(vStoreKeys[0])
+	if existing {
+		zzverif.Assert(gerr == nil && got.Current == State_SwapOutSender_AwaitAgreement, "C15.failed_store_write_leaves_record")
+	} else {
+		zzverif.Assert(gerr == ErrDataNotAvailable, "C15.failed_store_write_creates_nothing")
+	}
 }
